@@ -76,10 +76,13 @@ macro_rules! c10_glue {
                 }
                 $crate::c10::KeyPos::Disabled(Self::DISABLED.iter().position(|e| *e == k).unwrap_or(usize::MAX))
             }
-            fn epos(k: $key) -> usize {
+            /// position of an enabled key; a closure that is handed a disabled key gets `None`
+            /// and answers with a sentinel value (the slot comparison then decides, not a panic
+            /// of the harness)
+            fn epos(k: $key) -> Option<usize> {
                 match Self::pos(k) {
-                    $crate::c10::KeyPos::Enabled(i) => i,
-                    _ => panic!("simulator: closure was handed a disabled key"),
+                    $crate::c10::KeyPos::Enabled(i) => Some(i),
+                    _ => None,
                 }
             }
         }
@@ -121,7 +124,7 @@ macro_rules! c10_glue {
             fn all(&self, slots: &[Option<$crate::c10::Val>], how: u8) -> Option<Box<dyn $crate::c10::Tab>> {
                 let t: $table<Option<$crate::c10::Val>> = match how {
                     0 => $newfn(slots),
-                    1 => $table::from_closure(|k| slots[Self::epos(k)].clone()),
+                    1 => $table::from_closure(|k| match Self::epos(k) { Some(i) => slots[i].clone(), None => Some($crate::c10::Val(u64::MAX)) }),
                     _ => {
                         let mut t = $table::filled(None);
                         for (i, s) in slots.iter().enumerate() { t[Self::ENABLED[i]] = s.clone(); }
@@ -133,7 +136,7 @@ macro_rules! c10_glue {
             fn all_ok(&self, slots: &[Result<$crate::c10::Val, $crate::c10::Val>], how: u8) -> Result<Box<dyn $crate::c10::Tab>, $crate::c10::Val> {
                 let t: $table<Result<$crate::c10::Val, $crate::c10::Val>> = match how {
                     0 => $newfn(slots),
-                    1 => $table::from_closure(|k| slots[Self::epos(k)].clone()),
+                    1 => $table::from_closure(|k| match Self::epos(k) { Some(i) => slots[i].clone(), None => Ok($crate::c10::Val(u64::MAX)) }),
                     _ => {
                         let mut t = $table::filled(Ok($crate::c10::Val(0)));
                         for (i, s) in slots.iter().enumerate() { t[Self::ENABLED[i]] = s.clone(); }
